@@ -12,6 +12,7 @@ func genC01(t *rapid.T) Case {
 	c := Case{Prof: "c01", Roots: rapid.IntRange(1, 2).Draw(t, "roots"), MaxDir: 100}
 	c.Keys = GenKeys(t, 1, 4, true)
 	c.KeysHex = GenBinKeys(t)
+	c.OddPath = rapid.IntRange(0, 3).Draw(t, "oddPath") == 0
 	n := rapid.IntRange(1, 40).Draw(t, "nops")
 	for i := 0; i < n; i++ {
 		k := rapid.SampledFrom([]string{"set", "set", "set", "del", "get", "getr", "keys"}).Draw(t, "kind")
